@@ -679,6 +679,9 @@ def guard_flags(L, kinds, o, first_parent="by-containment"):
     k = o[0]
     fl = set()
     args = []
+    if any(isinstance(v, int) and not isinstance(v, bool) and not (0 <= v < len(kinds)) for v in
+           ([o[1]] if k not in ("NewGroup", "GroupLayers", "NewDoc", "NewPixel") else [])):
+        return fl  # the receiver does not exist on this side (ids out of step after a lost object)
     listed = lambda x: any(x in l for l in L.values())
     mult = lambda x: sum(l.count(x) for l in L.values())
     if k == "Append":
@@ -709,6 +712,9 @@ def guard_flags(L, kinds, o, first_parent="by-containment"):
                 cs = [g for g, l in L.items() if o[1][0] in l]
                 if p is not None and p not in cs:
                     fl.add("stale-parent-default")
+        if p is not None and not (0 <= p < len(kinds)):
+            fl.add("stale-parent-default")  # the stored _parent is an object nobody registered
+            p = None
         if p is not None and kinds[p] != KPIXEL and any(p == x or p in _reach(L, x) for x in o[1]):
             fl.add("group-layers-parent-inside")
     return fl
@@ -836,6 +842,22 @@ def explain_mismatch(ck, case, tag="dbg"):
 
 
 # ----------------------------------------------------------------------------- parallel evaluation on the implementation side
+class Guarded:
+    """wraps a per-case worker: an exception inside the driver or an oracle becomes a reported failure
+    (with the case as replay) instead of killing the run"""
+
+    def __init__(self, fn, on_error):
+        self.fn, self.on_error = fn, on_error
+
+    def __call__(self, item):
+        try:
+            return self.fn(item)
+        except Exception as e:  # noqa
+            import traceback
+
+            return self.on_error(item, "%s: %s | %s" % (type(e).__name__, e, traceback.format_exc()[-400:]))
+
+
 def parallel_map(fn, items, procs=12, chunk=200):
     """map a top-level function over items in forked workers (psd_tools is already imported and is inherited)"""
     import multiprocessing as mp
